@@ -22,7 +22,7 @@ def validate_coroutine(ctx, name):
     return vb, None
 
 
-def check_once(ctx, out, prefix, name, per_task_call_rx, per_task_what):
+def check_once(ctx, out, prefix, name, per_task_call_rx, per_task_what, per_task_alt=None):
     """One spawn per block with the attribute; the task calls the per-block operation once."""
     vb, co = validate_coroutine(ctx, name)
     rule = prefix + ".once"
@@ -45,13 +45,13 @@ def check_once(ctx, out, prefix, name, per_task_call_rx, per_task_what):
         out.viol(rule, "%s|spawn-outside-block-loop" % rule, ctx.where(co, st["span"]), "the task spawn is not inside the per-block loop")
     # no inner loop between the block loop and the spawn (one spawn per block)
     inner = [h for h in cfg.loops_containing(sbi)]
-    if len(inner) == 2:
+    if set(inner) == {h for h, bl, kind in loops if sbi in bl} and {kind for h, bl, kind in loops if sbi in bl} == {"files", "blocks"}:
         n += 1
     else:
         out.viol(rule, "%s|spawn-nesting" % rule, ctx.where(co, st["span"]), "the spawn is nested in %d loops; expected the file loop and the block loop only (one task per block)" % len(inner))
     # guarded by the attribute being present (and non-empty)
     gs = util.guard_texts(ctx, co, sbi)
-    has_attr = any(re.search(r"HashMap::get\(.*'%s'\)" % re.escape(name), g[2]) and "0" not in g[1] for g in gs)
+    has_attr = any(re.search(r"^(discr\()?HashMap::(get|contains_key)\(.*'%s'\)" % re.escape(name), g[2]) and "0" not in g[1] for g in gs)
     nonempty = any(re.search(r"is_empty\(str::trim\(", g[2]) and g[1] == ["0"] for g in gs)
     if has_attr and nonempty:
         n += 1
@@ -81,6 +81,10 @@ def check_once(ctx, out, prefix, name, per_task_call_rx, per_task_what):
     tcfg = cfg_of(task)
     calls = [(bi, t) for bi, t in task.calls() if callee_matches(t, per_task_call_rx)]
     if len(calls) == 1 and not tcfg.loops_containing(calls[0][0]):
+        n += 1
+    elif not calls and per_task_alt is not None and per_task_alt(task):
+        # the operation is reached through other functions than the one named: counted on the task's
+        # normalised view by the caller
         n += 1
     else:
         in_loop = [1 for bi, t in calls if tcfg.loops_containing(bi)]
@@ -251,7 +255,25 @@ def task_resolver(ctx, co, task):
             if (t.get("res") or t.get("def") or "") == parent.id:
                 site = t
 
+    # in the normalised view the async fn's constructor is inlined: the coroutine is built in the spawning
+    # body itself, from the arguments
+    built = None
+    if parent is not None and parent.kind in ("Fn", "AssocFn") and co is not None and site is None:
+        for bi, j, s in co.assigns():
+            rv = s["rv"]
+            if rv["k"] == "agg" and rv.get("agg") in ("coroutine", "closure") and rv.get("path") == task.id and bi in cfg_of(co).reachable:
+                built = dict(zip(rv.get("fields") or [], rv["ops"]))
+
     def resolve(labs):
+        if built is not None:
+            out = set()
+            for lab in labs:
+                if lab[0] == "upvar" and lab[1] in built:
+                    base = ctx.prov.read_operand(co, built[lab[1]])
+                    out |= {(b[0], b[1], (tuple(b[2]) + tuple(lab[2]))[:8]) for b in base}
+                else:
+                    out.add(lab)
+            return ctx.prov.resolve_upvars(co, out)
         labs = ctx.prov.resolve_upvars(task, labs)
         if site is None:
             return labs
